@@ -27,9 +27,41 @@ var (
 )
 
 type timer struct {
+	id    int
 	d     time.Duration
 	ch    chan time.Time
 	fired bool
+}
+
+// OnCreate, when set, is told about every virtual timer that stays pending.
+var OnCreate func(id int, d time.Duration)
+
+// PendingIDs lists the ids of timers that have not fired, oldest first.
+func PendingIDs() []int {
+	mu.Lock()
+	defer mu.Unlock()
+	var out []int
+	for _, t := range pending {
+		if !t.fired {
+			out = append(out, t.id)
+		}
+	}
+	return out
+}
+
+// FireID fires one pending timer.
+func FireID(id int) bool {
+	mu.Lock()
+	defer mu.Unlock()
+	for _, t := range pending {
+		if !t.fired && t.id == id {
+			t.fired = true
+			now = now.Add(t.d)
+			t.ch <- now
+			return true
+		}
+	}
+	return false
 }
 
 // SetVirtual switches to virtual time with the given policy (nil = every timer fires at once).
@@ -66,7 +98,7 @@ func After(d time.Duration) <-chan time.Time {
 		return time.After(d)
 	}
 	created++
-	t := &timer{d: d, ch: make(chan time.Time, 1)}
+	t := &timer{id: created, d: d, ch: make(chan time.Time, 1)}
 	fire := policy == nil || policy(d)
 	if fire {
 		now = now.Add(d)
@@ -75,7 +107,11 @@ func After(d time.Duration) <-chan time.Time {
 	} else {
 		pending = append(pending, t)
 	}
+	cb := OnCreate
 	mu.Unlock()
+	if !fire && cb != nil {
+		cb(t.id, d)
+	}
 	return t.ch
 }
 
